@@ -262,6 +262,29 @@ def translate_item(item):
                     rec.violation(dict(sig, obligation=obligation + '.one_capture_group_per_extended_group', groups=ctr.groups, want=want),
                                   f'{kind}.translate({txt!r}): {ctr.groups} capturing groups for {want} extended groups ({tr!r})', replay_translate(kind, pt, flags))
                     status = 'violation'
+        # what a group captures: for `literal* GROUP literal*` (one top-level, non-negated group) the captured text is exactly what stands
+        # between the literal prefix and suffix - also when the group matches empty (the group then captures '' and is not None)
+        if len(pos) == 1 and not neg and mode_from_flags(flags, kind == 'glob').ext and not is_bytes:
+            tl = [t for t in els if t[0] == 'ext']
+            if len(tl) == 1 and tl[0][1] != '!' and count_ext_groups(els) == 1 and all(t[0] in ('lit', 'esc', 'ext') for t in els) and not any(t[0] != 'ext' and t[1] == '/' for t in els):
+                k = [i for i, t in enumerate(els) if t[0] == 'ext'][0]
+                pre, post = ''.join(t[1] for t in els[:k]), ''.join(t[1] for t in els[k + 1:])
+                try:
+                    ctr = re.compile(pos[0])
+                    import itertools as _it
+                    for n in range(0, 4):
+                        for mid in _it.product('ab.', repeat=n):
+                            name = pre + ''.join(mid) + post
+                            mm = ctr.fullmatch(name)
+                            if mm is not None and ctr.groups == 1 and mm.group(1) != ''.join(mid):
+                                rec.violation(dict(sig, obligation=obligation + '.group_captures_the_text_it_consumed', witness=name, captured=repr(mm.group(1))),
+                                              f'{kind}.translate({txt!r}): on {name!r} the group captures {mm.group(1)!r}, the text it consumed is {"".join(mid)!r}', replay_translate(kind, pt, flags, name))
+                                status = 'violation'
+                                raise StopIteration
+                except StopIteration:
+                    pass
+                except re.error:
+                    pass
         rec.obligation(obligation, 'proved' if status == 'proved' else 'refuted', 'relang', 0.0, detail=f'{txt!r} {flags}')
         return status, rec.ops
     except lang.CheckerBroken as e:
